@@ -7,7 +7,7 @@ WT=/tmp/mt-$NAME
 git -C /repo worktree remove --force $WT 2>/dev/null
 git -C /repo worktree add -q --detach $WT HEAD || exit 9
 export CARGO_TARGET_DIR=$WT/target CARGO_NET_OFFLINE=true
-DEMO=$(ls $SRC/demo_*.rs | head -1); DN=$(basename $DEMO .rs)
+DEMO=$(ls $SRC/demo*.rs | head -1); DN=$(basename $DEMO .rs)
 cp $DEMO $WT/tests/
 ( cd $WT && cargo test --offline --test $DN > $WT/demo_clean.log 2>&1 ); CLEAN=$?
 git -C $WT apply $SRC/patch.diff || { echo "patch does not apply"; exit 9; }
